@@ -23,6 +23,9 @@ e.append({"prefix": "fd01", "base": 71, "len": 2, "shards": 8, "what": "Zp_field
 targets.append({"name": "zp_ops", "sources": ["props/C10/zp_ops.cpp"], "cases": {"quick": 24000, "thorough": 1200000},
                 "maxlen": 128, "streams": 4, "enums": e, "fuzz": {"runs": 400000, "max_seconds": 400},
                 "note": "Zp_field_operators<unsigned int>, <unsigned long>, Z2_field_operators"})
+targets.append({"name": "zp_ops_bigpool", "sources": ["props/C10/zp_ops.cpp"], "flags": ["-DC10_BIG_POOL"], "tiers": ["thorough"],
+                "cases": {"quick": 0, "thorough": 400000}, "maxlen": 128, "streams": 8, "class_group": "zp_ops",
+                "note": "zp_ops with 13 expensive primes (65521, 65519, 65497, 59999, 54983, 49999, 46349, 46337, 39989, 32749, 29989, 19997, 11987)"})
 # compile-time element classes
 e = []
 for k, (name, p) in enumerate([("Z2_field_element", 2), ("Zp_field_element<2>", 2), ("Zp_field_element<3>", 3),
